@@ -443,23 +443,9 @@ func callOps() []callOp {
 				scribGeom(g.Clone())
 			}
 		},
-		"xy.ConvexHull": func(a *callArg) { scribGeom(xy.ConvexHull(a.g)) },
-		"xy.ConvexHullFlat": func(a *callArg) {
-			if fc, ok := flatOfT(a.g); ok {
-				scribGeom(xy.ConvexHullFlat(a.g.Layout(), fc))
-			}
-		},
-		"xy.Centroid": func(a *callArg) {
-			if c, err := xy.Centroid(a.g); err == nil {
-				scribFlat(c)
-			}
-		},
-		"transform.UniqueCoords": func(a *callArg) {
-			if fc, ok := flatOfT(a.g); ok && a.g.Stride() > 0 {
-				scribFlat(transform.UniqueCoords(a.g.Layout(), hullCmp{}, fc))
-			}
-		},
-		// NOT scribbled: the intersector's result. For an endpoint intersection it hands back the caller's own coordinate
+		// NOT scribbled: hulls, centroids, unique coordinates (the properties promise fresh storage for Bounds(), Coords()
+		// and Clone() only; whether another computed object may share storage with its input is left open) and
+		// the intersector's result. For an endpoint intersection it hands back the caller's own coordinate
 		// value (slice header and all); the property does not promise a copy there.
 	}
 	for i := range ops {
